@@ -99,6 +99,7 @@ var skipInit = map[string]bool{
 	"internal/poll": true, "internal/cpu": true, "crypto/rand": true, "math/rand": true,
 	"internal/godebug": true, "sync": true, "internal/testlog": true, "testing": true,
 	"log": true, "net/http": true, "google.golang.org/grpc": true, "flag": true,
+	"github.com/samaritan-proxy/samaritan/stats": true, "github.com/kirk91/stats": true, "github.com/samaritan-proxy/samaritan/logger": true,
 }
 
 func (e *Engine) ensureInit(pkg *ssa.Package) {
